@@ -152,8 +152,29 @@ let parse_lop (s : string) : lop =
   | ["px"] -> LPixels
   | _ -> failwith ("bad lcd op " ^ s)
 
+(* ---- keyboard ------------------------------------------------------------------------- *)
+let parse_kop (s : string) : kop =
+  match split_on ':' s with
+  | ["p"; c] -> KPress (n_of_int (ios c))
+  | ["r"; c] -> KRelease (n_of_int (ios c))
+  | ["kol"; v] -> KKol (n_of_int (ios v))
+  | ["koh"; v] -> KKoh (n_of_int (ios v))
+  | ["t"] -> KTick
+  | ["rd"] -> KRead
+  | ["inj"; c; r] -> KInject (n_of_int (ios c), s2b r)
+  | ["con"] -> KConsume
+  | _ -> failwith ("bad kbd op " ^ s)
+
+let kcfg_of pt rt dl iv ah re : kcfg =
+  { press_th = n_of_int (ios pt); release_th = n_of_int (ios rt); rep_delay = n_of_int (ios dl);
+    rep_interval = n_of_int (ios iv); active_high = s2b ah; rep_enabled = s2b re }
+
 let handle (w : string list) : string =
   match w with
+  | "kbd_py" :: pt :: rt :: dl :: iv :: ah :: re :: _irq :: ops ->
+      show_nll (kbd_py_run (kcfg_of pt rt dl iv ah re) (List.map parse_kop ops))
+  | "kbd_rs" :: pt :: rt :: dl :: iv :: ah :: re :: irq :: ops ->
+      show_nll (kbd_rs_run (kcfg_of pt rt dl iv ah re) (s2b irq) (List.map parse_kop ops))
   | "lcd_py" :: ops -> show_nll (lcd_py_run (List.map parse_lop ops))
   | "lcd_rs" :: ops -> show_nll (lcd_rs_run (List.map parse_lop ops))
   | "dec" :: rest -> dec_case rest
